@@ -86,18 +86,21 @@ type reqState struct {
 	spec     ReqSpec
 	enqueued bool
 	enqErr   error
-	req      *neutrino.GetUtxoRequest
-	enqSeq   int64
-	vlo, vhi int32
-	arrival  string
-	started  bool // readers running
-	res      [2]*waitRes
-	order    []int // reader indexes in order of return
-	returned int   // readers that have returned (also after a liveness verdict)
-	firstSeq int64 // seq when first answer was received
-	stopSeen bool  // scripted stop had been initiated when the first answer was received
-	unans    string
-	progress atomic.Int64
+	// The harness had already called its own cleanup Stop when this request
+	// was handed to Enqueue (a harness ordering slip, not the client's doing).
+	afterCleanup bool
+	req          *neutrino.GetUtxoRequest
+	enqSeq       int64
+	vlo, vhi     int32
+	arrival      string
+	started      bool // readers running
+	res          [2]*waitRes
+	order        []int // reader indexes in order of return
+	returned     int   // readers that have returned (also after a liveness verdict)
+	firstSeq     int64 // seq when first answer was received
+	stopSeen     bool  // scripted stop had been initiated when the first answer was received
+	unans        string
+	progress     atomic.Int64
 }
 
 type stepState struct {
@@ -119,11 +122,17 @@ type driver struct {
 	src *Source
 	sc  *neutrino.UtxoScanner
 
-	mu        sync.Mutex
-	calls     [NumCB + 1]int64
-	total     int64
-	seenH     map[[2]int32]bool
-	steps     []*stepState
+	mu    sync.Mutex
+	calls [NumCB + 1]int64
+	total int64
+	seenH map[[2]int32]bool
+	steps []*stepState
+	// Steps a gate has taken out of steps but the loop has not run yet (the
+	// scanner goroutine is between onGate's unlock and the loop's receive).
+	// They are still part of the script: stepsLeft counts them, so that the
+	// loop never takes "no steps left" for "script done" (and cleans up with
+	// Stop) while a scripted Enqueue is on its way.
+	inflight  int
 	closed    bool
 	batchOpen bool
 	batchEnd  int32
@@ -211,6 +220,7 @@ func (d *driver) onGate(kind int, h int32) error {
 		}
 	}
 	d.steps = rest
+	d.inflight += len(hit)
 	d.mu.Unlock()
 	if len(hit) == 0 {
 		return nil
@@ -314,6 +324,7 @@ func (d *driver) enqueue(ri int, arrival string) {
 	rs.arrival = arrival
 	rs.vlo = d.src.Visible()
 	rs.enqSeq = d.nextSeq()
+	rs.afterCleanup = d.cleanup
 	in := &neutrino.InputWithScript{OutPoint: rs.spec.Op, PkScript: rs.spec.Script}
 	req, err := d.sc.Enqueue(in, rs.spec.Start, func(uint32) { rs.progress.Add(1) })
 	if err != nil {
@@ -374,6 +385,7 @@ func (d *driver) stop(scripted bool, ctx string) {
 		d.logf("Stop() initiated (%s)", ctx)
 	} else {
 		d.cleanup = true
+		d.logf("cleanup Stop() by the harness (script done, first answers in)")
 	}
 	go func() {
 		_ = d.sc.Stop()
@@ -398,7 +410,9 @@ func (d *driver) popStep() *stepState {
 	return s
 }
 
-func (d *driver) stepsLeft() int { d.mu.Lock(); defer d.mu.Unlock(); return len(d.steps) }
+// stepsLeft counts the steps of the script that have not run yet, including
+// those a gate is handing over right now.
+func (d *driver) stepsLeft() int { d.mu.Lock(); defer d.mu.Unlock(); return len(d.steps) + d.inflight }
 
 // goroutine dump helpers ----------------------------------------------------
 
@@ -582,6 +596,9 @@ func (d *driver) loop() {
 				}
 			}
 			g.release <- err
+			d.mu.Lock()
+			d.inflight -= len(g.steps)
+			d.mu.Unlock()
 			eventTotal = d.snapshotTotal()
 			staticBase = -1
 			continue
@@ -955,7 +972,15 @@ func (d *driver) judge() *Outcome {
 		case rs.enqErr != nil:
 			ob.EnqueueErr = rs.enqErr.Error()
 			ansKind = "enqueue-refused"
-			if !(errors.Is(rs.enqErr, neutrino.ErrShuttingDown) && d.stopSeq != 0) {
+			switch {
+			case errors.Is(rs.enqErr, neutrino.ErrShuttingDown) && d.stopSeq != 0:
+			case errors.Is(rs.enqErr, neutrino.ErrShuttingDown) && rs.afterCleanup:
+				// The scanner WAS stopped, by the harness itself: refusing
+				// the request is what it must do. The case decided nothing.
+				if o.Inconclusive == "" {
+					o.Inconclusive = "harness called its cleanup Stop before a scripted Enqueue"
+				}
+			default:
 				add("enqueue-error/"+o.Fault, fmt.Sprintf("r%d: Enqueue failed with %v although the scanner was not stopped", ri, rs.enqErr))
 			}
 		case rs.unans != "" && len(rs.order) == 0:
